@@ -1,5 +1,6 @@
 //! nimc - bounded-exhaustive model checking harness for ndarray-interp (see /verif/DESIGN.md)
 pub mod alpha;
+pub mod baton;
 pub mod dd;
 pub mod driver;
 pub mod fl;
